@@ -98,3 +98,16 @@ package rm
 //@   ensures branch-id-from-the-response: result1 == nil ==> called("SendSyncRequest#1") && result0 == callres("SendSyncRequest#1", 0).(message.BranchRegisterResponse).BranchId
 //@   nopanic
 //@   at call SendSyncRequest#1: assert request-describes-the-branch: isT(arg_msg, message.BranchRegisterRequest) && arg_msg.(message.BranchRegisterRequest).Xid == param.Xid && arg_msg.(message.BranchRegisterRequest).ResourceId == param.ResourceId && arg_msg.(message.BranchRegisterRequest).BranchType == param.BranchType && arg_msg.(message.BranchRegisterRequest).LockKey == param.LockKeys && string(arg_msg.(message.BranchRegisterRequest).ApplicationData) == param.ApplicationData
+
+// C02: the report of a branch's phase-one outcome. A refusal by the coordinator (result code Failed), an
+// answer of another kind and a transport failure are all errors - Tx.report retries on them; taken for
+// success, a registered branch whose phase one failed keeps its global locks.
+//@ func (*RMRemoting).BranchReport
+//@   prop C02 C05
+//@   modifies ghost.begin_sends, ghost.commit_sends, ghost.rollback_sends, ghost.other_sends, ghost.commit_acked, ghost.commit_refused, ghost.rollback_acked, ghost.rollback_refused, ghost.last_send_failed, ghost.commit_xid, ghost.rollback_xid, ghost.begin_xid
+//@   ensures one-request: ghost.other_sends == old(ghost.other_sends) + 1
+//@   ensures transport-failure-surfaces: ghost.last_send_failed ==> result != nil
+//@   ensures refusal-surfaces: called("SendSyncRequest#1") && callres("SendSyncRequest#1", 1) == nil && isT(callres("SendSyncRequest#1", 0), message.BranchReportResponse) && callres("SendSyncRequest#1", 0).(message.BranchReportResponse).ResultCode == message.ResultCodeFailed ==> result != nil
+//@   ensures another-kind-of-answer-is-an-error: called("SendSyncRequest#1") && callres("SendSyncRequest#1", 1) == nil && !isT(callres("SendSyncRequest#1", 0), message.BranchReportResponse) ==> result != nil
+//@   at call SendSyncRequest#1: assert request-describes-the-branch: isT(arg_msg, message.BranchReportRequest) && arg_msg.(message.BranchReportRequest).Xid == param.Xid && arg_msg.(message.BranchReportRequest).BranchId == param.BranchId && arg_msg.(message.BranchReportRequest).Status == param.Status && arg_msg.(message.BranchReportRequest).BranchType == param.BranchType
+//@   nopanic
